@@ -183,14 +183,14 @@ theorem stepOf_keys (i : Nat) (l : Loc) (k : Key) (f : Val → Val × Loc) (h : 
         · exact Or.inl ⟨ins, h1, hkk⟩
         · exact Or.inr ⟨s, hs1, ins, hxs, hkk⟩
       cases ins with
-      | acquire =>
+      | acquire n0 =>
         simp only [Option.some.injEq, Prod.mk.injEq] at h
         obtain ⟨rfl, rfl⟩ := h
         refine ⟨inkeys _ rfl, fun v => ?_⟩
         by_cases hv : v.held = none
         · simp only [hv, if_true]; exact shrink _ (fun x hx => hx) rfl
         · simp only [hv, if_false]; exact fun k' hk' => hk'
-      | release =>
+      | release n0 =>
         simp only [Option.some.injEq, Prod.mk.injEq] at h
         obtain ⟨rfl, rfl⟩ := h
         exact ⟨inkeys _ rfl, fun v => shrink _ (fun x hx => hx) rfl⟩
